@@ -23,7 +23,28 @@ ASSUMPTIONS = ["64-bit int; segments < 2^32 bytes, segment count < 2^32; bytes a
                "fuel of write_ptr/copy_struct: theorems are about Ok results, which are never produced by fuel exhaustion"]
 TECHNIQUE = "Coq proof over an executable model + extracted-model/implementation differential run"
 LEVEL_TEXT = ("Proof of the T1 theorems: allocation returns fresh zeroed aligned storage inside len<=cap and changes no existing byte (single-segment regrowth, new multi-segment segments); every data setter changes exactly its field and reads back; the pointer word(s) written by writePtr's placement switch (near / far+pad / double-far) are resolved by the reader model to exactly the target, changing only the pointer word and appended pads. Differential run: model == implementation on every op of random builder programs; independent oracles: setter read-back, written value tree == read tree, same tree after Marshal/Unmarshal, packed, Encoder/Decoder.")
-LEVEL_NOTE = ("T2 read_back is proved step-wise over the object table of the C05 sub-language (C04_read_back_data, C04_read_back_ptr: written bytes / slot target read back, every other object byte and every other slot target unchanged); history level (HeapHistory.v): over any chain of steps with frames the last setter on a data field / the last pointer setter on a slot is what is read back, other objects are untouched (C04_last_write_wins, C04_last_pointer_wins, C04_other_regions_unchanged), every op of the interpreter has the frame touch(state, op) and every run is such a chain (C04_step_frame, C04_run_chain), hence for every program a data field reads back the last setter's value whatever other ops follow, and a pointer slot the last pointer setter's object (C04_run_last_write_wins, C04_run_last_pointer_wins); the whole-program refinement builder_refines to an abstract-store interpreter is not stated, the tree-mode programs check it dynamically; the reader model's readPtr is tied to the table for every state hinv describes (C04_read_slot) and returns exactly the object set after a pointer setter (C04_read_back_handle, composite lists included). marshal_roundtrip is C14's theorem.")
+LEVEL_NOTE = ("What is proved and what is not. READ-BACK: data fields (setter read-back, frames), text/data (C04_new_bytes_read_back), "
+              "pointers: C04_write_read_ptr* at write time; for every state of every program the table invariant holds "
+              "(C04_reachable_sinv) and readPtr at any table slot (a) succeeds under depth limit <> 0 and a read limit covering "
+              "the table objects (C04_read_slot_total, C04_read_object_total: structs, all list kinds incl. composite lists, "
+              "capability slots = capability read-back) and (b) whatever it returns is the null handle, the empty struct, the "
+              "capability or the handle of the object stored (C04_read_slot, C04_read_back_handle). HISTORY: every op has the "
+              "frame touch(state, op), every run is a chain of frames, the last setter on a data field / the last pointer setter "
+              "on a slot is what is read back whatever other ops follow (C04_step_frame, C04_run_chain, C04_run_last_write_wins, "
+              "C04_run_last_pointer_wins - the pointer version is conditional on readPtr returning a handle; combine with "
+              "C04_read_slot_total for the limits). SERIALISATION, at the segment level: C04_bytes_inv_sublang (every byte of every "
+              "reachable state is in 0..255; sub_prog requires NewData / NewTextFromBytes arguments to be bytes) and "
+              "C04_all_paths_states: for every state of the table invariant whose bytes are bytes, with <= 512 segments and a frame "
+              "within the Decoder's size limit, Marshal, Encoder, MarshalPacked, packed Encoder succeed and Unmarshal, "
+              "UnmarshalPacked and the stream Decoders (plain over any chunking, packed over any reader behaviour) return exactly "
+              "the segments built - hence the same reads; C04_marshal_roundtrip_states is the unpacked part up to 2^30-1 segments "
+              "(from C14_unmarshal_roundtrip, C14_encode_is_marshal, all_paths_same_segments). Not modelled: Marshal's own loading "
+              "of the segments from the arena (message.go) - runs only. NOT STATED: the whole-program refinement builder_refines "
+              "to an abstract-store interpreter (the tree-mode programs check it dynamically), so 'same TREE' after the round "
+              "trips is 'same segments, hence same result of every read' - a tree-valued statement is checked by the runs; the "
+              "bytes_ok premise of the older bit-setter read-back theorems is now discharged by C04_bytes_inv_sublang; nothing is "
+              "claimed about the message "
+              "after a failed pointer setter / constructor (the run ends there).")
 DESIGN_REF = "DESIGN.md section 6, C04"
 
 classify = bc.classify
